@@ -5,7 +5,7 @@
    Only statements; every proof is `exact <lemma>`. *)
 From Coq Require Import List ZArith QArith Qcanon Bool Arith.
 From Dimod Require Import Base.Util Model.Poly Model.Comb Gen.Gen_Gates Model.Gates
-  Proofs.GatesFacts Props.Comb Model.Knap Proofs.KnapFacts Model.MultCircuit Proofs.MultFacts.
+  Proofs.GatesFacts Props.Comb Model.Knap Proofs.KnapFacts Model.MultCircuit Proofs.MultFacts Model.Qap Proofs.QapFacts Model.Magic Proofs.MagicFacts.
 Import ListNotations.
 
 (* energy 0 on exactly the rows of the truth table, >= 1 on every other row (strength 1) *)
@@ -201,6 +201,60 @@ Theorem C17_multiplication_circuit_one_bit_refuted :
   bits_val (prod_bits 3 1 witness_3x1) = 4%Z.
 Proof. exact multiplication_circuit_one_bit_refuted. Qed.
 Print Assumptions C17_multiplication_circuit_one_bit_refuted.
+
+(* ---------- quadratic_assignment (Model/Qap.v, faithful to the code as it is) ---------- *)
+(* on "facility i at location pi(i)" the generated objective is
+   sum over i > k of (flow[i][k] + flow[k][i]) * dist[pi(i)][pi(k)], for every size n *)
+Theorem C17_qap_objective_as_is :
+  forall n F D (pi : nat -> nat) (x : sample),
+    (forall i, (i < n)%nat -> (pi i < n)%nat) ->
+    (forall i j, (i < n)%nat -> (j < n)%nat -> x (qidx n i j) = onehot_sample n pi i j) ->
+    energy (qap_objective n F D) x = qap_cost_as_is n F D pi.
+Proof. exact qap_objective_as_is. Qed.
+Print Assumptions C17_qap_objective_as_is.
+
+(* which is the documented cost sum_{i <> k} flow[i][k] * dist[pi(i)][pi(k)] when the distance matrix is symmetric *)
+Theorem C17_qap_cost_symmetric :
+  forall n F D (pi : nat -> nat),
+    (forall i, (i < n)%nat -> (pi i < n)%nat) -> symmetric n D ->
+    qap_cost_as_is n F D pi = qap_cost n F D pi.
+Proof. exact qap_cost_symmetric. Qed.
+Print Assumptions C17_qap_cost_symmetric.
+
+(* ... and is not in general: flow = dist = [[0,1],[0,0]], identity placement: 0 instead of 1 *)
+Theorem C17_qap_asymmetric_refuted :
+  qap_cost_as_is 2 F_ex D_ex (fun i => i) <> qap_cost 2 F_ex D_ex (fun i => i).
+Proof. exact qap_asymmetric_refuted. Qed.
+Print Assumptions C17_qap_asymmetric_refuted.
+
+Theorem C17_qap_feasible :
+  forall n F D (x : sample),
+    feasibleb (qap_model n F D) x = true
+    <-> (forall i, (i < n)%nat -> qap_row n x i = 1%Qc) /\ (forall j, (j < n)%nat -> qap_col n x j = 1%Qc).
+Proof. exact qap_feasible. Qed.
+Print Assumptions C17_qap_feasible.
+
+(* ---------- magic_square (Model/Magic.v) ---------- *)
+(* over Z, any list of pairs: pairwise different integers have a sum of squared differences >= #pairs *)
+Theorem C17_sqdiff_sum_distinct :
+  forall (v : nat -> Z) pairs,
+    all_distinct_on v pairs -> (Z.of_nat (length pairs) <= sqdiff_sum v pairs)%Z.
+Proof. exact sqdiff_sum_distinct. Qed.
+Print Assumptions C17_sqdiff_sum_distinct.
+
+(* so distinct entries satisfy the "uniqueness" constraint, for every size *)
+Theorem C17_magic_uniqueness_necessary :
+  forall n (v : nat -> Z),
+    all_distinct_on v (cell_pairs n) ->
+    (z2q (Z.of_nat (length (cell_pairs n))) <= energy (uniq_poly n) (fun c => z2q (v c)))%Qc.
+Proof. exact magic_uniqueness_necessary. Qed.
+Print Assumptions C17_magic_uniqueness_necessary.
+
+(* but the constraint does not force distinct entries: a Latin square passes magic_square(3) *)
+Theorem C17_magic_uniqueness_not_sufficient_refuted :
+  magic_feasibleb 3 1 (zsample latin3) = true /\ nth 0 latin3 0%Z = nth 5 latin3 0%Z.
+Proof. exact magic_uniqueness_not_sufficient_refuted. Qed.
+Print Assumptions C17_magic_uniqueness_not_sufficient_refuted.
 
 Example C17_ex_fulladder : fulladder_energy [true; true; false; false; true] = 0%Z /\
                            fulladder_energy [true; true; false; true; true] = 1%Z.
